@@ -26,7 +26,18 @@ def main():
     drv = run.driver()
     with warnings.catch_warnings():
         warnings.simplefilter("ignore")
+        import json
+        from common import VERIF
         import c10_mm
+        if run.replay:
+            # ./check C10 --replay <file>: re-run the recorded failing save/load cases
+            rep = json.loads(open(run.replay).read())
+            n = c10_mm.replay_saves(run, drv, [f.get("case") for f in rep.get("failures", [])] + [x.get("case") for v in rep.get("broken_correspondence", {}).values() for x in v])
+            run.notes.append(f"replayed {n} recorded cases from {run.replay}")
+            run.finish("proof")
+        corpus = [json.loads(p.read_text()) for p in sorted((VERIF / "corpus" / "C10").glob("*.json"))]
+        run.count("corpus.cases", len(corpus))
+        c10_mm.replay_saves(run, drv, [c["case"] for c in corpus], stream="save+load(corpus)")
         c10_mm.run_model_streams(run, drv)
         import c10_ext
         c10_ext.run_ext(run)
